@@ -87,6 +87,11 @@ def gen_mesh(rng, tier, scale):
     remap = {int(old): new for new, old in enumerate(keep)}
     V2 = V[keep]
     T2 = [[remap[int(i)] for i in t] for t in tris]
+    if rng.chance(0.3):  # the constructor asks for index triples only: winding need not be consistent
+        mode = rng.choice(["all", "some", "alternate"])
+        for i in range(len(T2)):
+            if mode == "all" or (mode == "some" and rng.chance(0.4)) or (mode == "alternate" and i % 2):
+                T2[i] = [T2[i][0], T2[i][2], T2[i][1]]
     if rng.chance(0.5):  # vertex order is arbitrary: the cached start vertex (min index) then varies
         perm = list(range(len(V2)))
         rng.shuffle(perm)
@@ -296,9 +301,12 @@ def gen(rng, tier="quick", prop="C03"):
         else:
             pose = rng.pose()
         op = {"op": "pose", "s": s, "pose": pose}
-        if "pose-delivery" in faults and rng.chance(0.5):
-            n = rng.randint(1, 5)
-            op["how"] = "stack:%d:%d" % (rng.randrange(n), n)
+        if "pose-delivery" in faults and rng.chance(0.6):
+            if rng.chance(0.5):
+                n = rng.randint(1, 5)
+                op["how"] = "stack:%d:%d" % (rng.randrange(n), n)
+            else:
+                op["how"] = "reuse"  # the caller refills this collider's slot of its pose stack in place
         if "dup" in faults and rng.chance(0.3):
             op["dup"] = True
         emit(op)
@@ -308,12 +316,18 @@ def gen(rng, tier="quick", prop="C03"):
         e = model.slots[s]
         emit({"op": "warm", "s": s, "dirs": [gen_dir(rng, e) for _ in range(rng.randint(1, 12))]})
 
+    used_dirs = {}
+
     def gen_sup(twin):
         s = rng.randrange(nslots)
         e = model.slots[s]
         if "cache-warm" in faults and e["spec"]["kind"] == "mesh" and rng.chance(0.5):
             gen_warm(s)
-        d = gen_dir(rng, e)
+        if used_dirs.get(s) and rng.chance(0.25):
+            d = rng.choice(used_dirs[s])  # a direction this collider has answered before (possibly at another pose)
+        else:
+            d = gen_dir(rng, e)
+            used_dirs.setdefault(s, []).append(d)
         emit({"op": "sup", "s": s, "d": d, "twin": twin})
         if rng.chance(0.15):
             emit({"op": "sup", "s": s, "d": d, "twin": twin})  # same direction again
@@ -583,7 +597,7 @@ def signature(plan):
             kinds[op["s"]] = op["spec"]["kind"][:3] + ("m" if op["spec"].get("margin") else "")
             sig.append("N" + kinds[op["s"]])
         elif k == "pose":
-            sig.append("P%s%s%s" % (op["s"], "s" if op.get("how") else "", "d" if op.get("dup") else ""))
+            sig.append("P%s%s%s" % (op["s"], (op.get("how") or "")[:1], "d" if op.get("dup") else ""))
         elif k == "narrow":
             sig.append("X%s.%s%s" % (op["fn"][:3] + op["fn"][-3:], op["a"], op["b"]))
         elif k == "warm":
@@ -617,7 +631,7 @@ def stats(plan, jr):
         if kind == "pose":
             changed = True
             if op.get("how"):
-                inc("fault.pose-delivery.stack")
+                inc("fault.pose-delivery." + ("reuse" if op["how"] == "reuse" else "stack"))
                 fault_seen = True
             if op.get("dup"):
                 inc("fault.dup")
